@@ -57,6 +57,13 @@ def build_pair(d, go126=False):
     return res
 
 
+def violation(name, files, summary):
+    chk.violation(name, files, summary)
+    rs = os.path.join(chk.violations[-1]["replay"], "replay.sh")
+    if os.path.exists(rs):
+        os.chmod(rs, 0o755)
+
+
 # ------------------------------------------------------------------ 1. probes
 
 def probe_sections(text):
@@ -104,7 +111,7 @@ def run_probes():
         core.broken("llgo build of the probe program hit the build watchdog (overloaded machine?)")
     if res["llgo"][0] is None:
         files["build.log"] = res["llgo"][1]
-        chk.violation("probes-llgo-build-failure", files, "llgo cannot build the probe program that go accepts:\n" + res["llgo"][1][-1500:])
+        violation("probes-llgo-build-failure", files, "llgo cannot build the probe program that go accepts:\n" + res["llgo"][1][-1500:])
         return [], rsec, {}
     got = core.run_prog([res["llgo"][0]], timeout=300, interposer=True)
     gsec = probe_sections(got.err)
@@ -124,7 +131,7 @@ def run_probes():
                 if t not in avoid:
                     avoid.append(t)
         else:
-            chk.violation("probe-" + fid, dict(files, **{"go.stderr.txt": ref.err, "llgo.stderr.txt": got.err, "replay.sh": REPLAY_SH}),
+            violation("probe-" + fid, dict(files, **{"go.stderr.txt": ref.err, "llgo.stderr.txt": got.err, "replay.sh": REPLAY_SH}),
                           ("probe fails in a way the open finding does not describe: " if chk.is_open(fid) else
                            "regression of a FIXED finding: " if fid in known_ids else "") + detail)
             # keep the random part meaningful: avoid what is now known to be broken
@@ -288,7 +295,7 @@ if oracle_bad:
 
 for key in sorted(reports)[:MAX_REPORTS]:
     name, files, summary = reports[key]
-    chk.violation(name, files, summary)
+    violation(name, files, summary)
 if len(reports) > MAX_REPORTS:
     print("  (%d further distinct failing unit shapes not written out)" % (len(reports) - MAX_REPORTS))
 
